@@ -3,7 +3,7 @@ from mirlib import *
 from paths import *
 from shape import *
 from taint import Taint, operand_locals, rvalue_operands
-import r_dispatch
+import r_dispatch, r_entrycost
 
 MANIFEST = {
     'category': 'other',
@@ -15,10 +15,17 @@ MANIFEST = {
             'and the if_no_unmappables forms are the without_replacement forms plus NCR_EXTRA exactly when the encoding cannot encode '
             'everything; (D3) state awareness: every decoder query reads, transitively, every field its decode bodies write (frozen, '
             'reasoned exceptions), and Decoder::max_* handle all 11 life-cycle states explicitly, adding the two possibly-withheld BOM '
-            'bytes in the five withheld-byte states. Not decided: that the formulas are numerically sufficient (an amortised cost '
-            'argument per decoder).',
+            'bytes in the five withheld-byte states; (D4, R-ENTRYCOST) a necessary condition of sufficiency that involves the state term: for '
+            'every path of a decoder body from the call entry to a failing space test (no loop back edge), the state conditions the path '
+            'requires at entry, the number of input bytes it proves present and the demand (units stored before the test, each write at its '
+            'smallest size, plus the capacity the test asks for) are extracted, the closed form of the matching query is extracted from the '
+            'MIR of max_*_buffer_length and its helpers (branches on state fields fork, crate-local helpers inlined, constants folded) and '
+            'evaluated at that byte count: the query must cover the demand in every abstract state consistent with the path that the final '
+            'stores of some decode path can leave the decoder in (73 entry paths decided on the pinned tree, several of them tight; shapes '
+            'not understood are counted as undecided, not reported). Not decided: sufficiency beyond the first failing test of a call '
+            '(an amortised cost argument per decoder), and the encoder queries.',
     'note': 'Trusted: rustc MIR/instance resolution, mirx, rule library, semantics of core checked_* and cmp::max.',
-    'technique': 'interprocedural taint analysis over MIR (must-not-reach sinks) + dispatch-table agreement + path summaries',
+    'technique': 'interprocedural taint analysis over MIR (must-not-reach sinks) + dispatch-table agreement + path summaries + closed-form extraction of the queries compared with per-path space demands',
 }
 CONFIGS = {'quick': ['default'], 'thorough': ['default', 'noalloc', 'simd', 'fast', 'lessslow']}
 
@@ -307,4 +314,6 @@ def run(rep, facts, tier):
         d1(rep, f, c)
         d2(rep, f, c)
         d3(rep, f, c)
-    return ('other', MANIFEST['text'], ['numerical sufficiency of the formulas is NOT decided'])
+        n, und = r_entrycost.run(rep, f, c)
+        rep.floor('R-ENTRYCOST', 'entry paths to a failing space test decided against the query', n, 60, c)
+    return ('other', MANIFEST['text'], ['numerical sufficiency of the formulas beyond the first failing space test of a call is NOT decided'])
